@@ -186,6 +186,20 @@ Lemma c12_session_out_only_refuted :
   ss_lost (sess_run false UdpSessionTTLSeconds {| ss_last := 0; ss_closed := false; ss_lost := 0 |} feed_history) = 2.
 Proof. vm_compute. repeat split; try reflexivity; discriminate. Qed.
 
+(* ---- the copy-buffer pool ---- *)
+(* the double-Put variant: one direction gets a buffer and returns it (twice); the next two directions that start
+   hold the SAME buffer *)
+Lemma c12_double_put_refuted :
+  bp_held (fold_left (bpool_step true) [BpGet; BpPut 0; BpGet; BpGet]%nat bpool0) = [0; 0]%nat /\
+  ~ NoDup (bp_held (fold_left (bpool_step true) [BpGet; BpPut 0; BpGet; BpGet]%nat bpool0)).
+Proof.
+  split; [reflexivity|]. vm_compute. intros H. inversion H as [|? ? Hn _]. apply Hn. left. reflexivity.
+Qed.
+Lemma c12_single_put_example :
+  bp_held (fold_left (bpool_step false) [BpGet; BpPut 0; BpGet; BpGet; BpPut 1; BpGet]%nat bpool0) = [1; 0]%nat /\
+  NoDup (bp_held (fold_left (bpool_step false) [BpGet; BpPut 0; BpGet; BpGet; BpPut 1; BpGet]%nat bpool0)).
+Proof. split; [reflexivity|]. vm_compute. repeat constructor; cbn; intuition discriminate. Qed.
+
 (* ---- read failures: no failure kind is ever retried (a sticky one would spin the relay for ever) ---- *)
 Lemma retry_table_is_model :
   map (fun r => fst r) relay_retry_table = flat_map (fun site => map (fun kind => (site, kind)) [0; 1; 2; 3; 4; 5; 6; 7; 8; 9]) [0; 1; 2; 3] /\
